@@ -9,6 +9,7 @@ import (
 	"errors"
 	"math/rand"
 	"runtime"
+	"strconv"
 	"sync"
 	"sync/atomic"
 	"time"
@@ -19,6 +20,7 @@ import (
 	"github.com/bradenaw/juniper/iterator"
 	"github.com/bradenaw/juniper/parallel"
 	"github.com/bradenaw/juniper/stream"
+	"github.com/bradenaw/juniper/xsync"
 )
 
 var extraScale = map[string]func(c *Case, res map[string]any, fail func(string, ...any)){
@@ -29,6 +31,9 @@ var extraScale = map[string]func(c *Case, res map[string]any, fail func(string, 
 	"pipe-idle-next":       scalePipeIdleNext,
 	"chans-merge-iface":    scaleChansMergeIface,
 	"deque-gc":             scaleDequeGC,
+	"watchable-nil":        scaleWatchableNil,
+	"lazy-panic":           scaleLazyPanic,
+	"xmap-swap-storm":      scaleXMapSwapStorm,
 }
 
 // ---- C03: keys and values that were deleted or moved elsewhere can be garbage collected.
@@ -635,4 +640,142 @@ func scaleDequeGC(c *Case, res map[string]any, fail func(string, ...any)) {
 		fail("%d of the %d popped or overwritten elements are still reachable from the deque after garbage collection (%d elements stored, style %q)", miss, len(dead), len(live), style)
 	}
 	runtime.KeepAlive(d)
+}
+
+// ---- C18 extras (self-checking)
+
+// Watchable of an interface type: Set(nil) is a Set like any other (the value becomes nil, the channel handed out
+// before is closed).
+func scaleWatchableNil(c *Case, res map[string]any, fail func(string, ...any)) {
+	var w xsync.Watchable[error]
+	e1 := errors.New("e1")
+	if v, _ := w.Value(); v != nil {
+		fail("zero Watchable[error] holds %v", v)
+	}
+	w.Set(e1)
+	v, ch := w.Value()
+	if v != e1 {
+		fail("Value after Set(e1) returned %v", v)
+	}
+	w.Set(nil)
+	select {
+	case <-ch:
+	default:
+		fail("the channel returned with e1 is not closed after Set(nil)")
+	}
+	v2, ch2 := w.Value()
+	if v2 != nil {
+		fail("Value after Set(nil) returned %v", v2)
+	}
+	select {
+	case <-ch2:
+		fail("the channel returned with the latest value is closed although no later Set happened")
+	default:
+	}
+	var wa xsync.Watchable[any]
+	wa.Set(5)
+	_, ch3 := wa.Value()
+	wa.Set(nil)
+	select {
+	case <-ch3:
+	default:
+		fail("Watchable[any]: the channel is not closed after Set(nil)")
+	}
+	if v, _ := wa.Value(); v != nil {
+		fail("Watchable[any]: Value after Set(nil) returned %v", v)
+	}
+}
+
+// Lazy runs its function once - also when that one run panicked (sync.OnceValue: every call then panics with the same
+// value, f is not run again).
+func scaleLazyPanic(c *Case, res map[string]any, fail func(string, ...any)) {
+	var runs atomic.Int32
+	f := xsync.Lazy(func() int {
+		n := runs.Add(1)
+		if n == 1 {
+			panic("first run panics")
+		}
+		return int(n) * 100
+	})
+	outcomes := []string{}
+	for i := 0; i < 3; i++ {
+		func() {
+			defer func() {
+				if r := recover(); r != nil {
+					outcomes = append(outcomes, "panic")
+				}
+			}()
+			outcomes = append(outcomes, "value "+strconv.Itoa(f()))
+		}()
+	}
+	if runs.Load() != 1 {
+		fail("the function of a Lazy was run %d times (first run panicked, caller recovered, called again): outcomes %v", runs.Load(), outcomes)
+	}
+	// concurrent first calls with a panicking f
+	var runs2 atomic.Int32
+	gate := make(chan struct{})
+	g := xsync.Lazy(func() int {
+		runs2.Add(1)
+		<-gate
+		panic("boom")
+	})
+	var wg sync.WaitGroup
+	for i := 0; i < 4; i++ {
+		wg.Add(1)
+		go func() {
+			defer wg.Done()
+			defer func() { recover() }()
+			g()
+		}()
+	}
+	time.Sleep(2 * time.Millisecond)
+	close(gate)
+	wg.Wait()
+	func() {
+		defer func() { recover() }()
+		g()
+	}()
+	if runs2.Load() != 1 {
+		fail("with 4 concurrent first calls and a later one, a panicking Lazy function was run %d times", runs2.Load())
+	}
+}
+
+// xsync.Map.Swap is atomic like sync.Map.Swap: concurrent Swaps on one key hand each previous value to exactly one caller.
+func scaleXMapSwapStorm(c *Case, res map[string]any, fail func(string, ...any)) {
+	rounds := num(c.Cfg["rounds"])
+	k := num(c.Cfg["k"])
+	for r := 0; r < rounds; r++ {
+		var m xsync.Map[string, int]
+		m.Store("key", -1)
+		prev := make([]int, k)
+		var start atomic.Bool
+		var wg sync.WaitGroup
+		for g := 0; g < k; g++ {
+			wg.Add(1)
+			go func(g int) {
+				defer wg.Done()
+				for !start.Load() {
+				}
+				p, loaded := m.Swap("key", g)
+				if !loaded {
+					p = -2
+				}
+				prev[g] = p
+			}(g)
+		}
+		start.Store(true)
+		wg.Wait()
+		last, _ := m.Load("key")
+		seen := map[int]int{}
+		for _, p := range prev {
+			seen[p]++
+		}
+		seen[last]++
+		for v := -1; v < k; v++ {
+			if seen[v] != 1 {
+				fail("round %d: %d concurrent Swaps on one key: previous values %v, final value %d - value %d was handed out %d times (each value must be seen exactly once)", r, k, prev, last, v, seen[v])
+				return
+			}
+		}
+	}
 }
